@@ -44,9 +44,15 @@ def hash_fields(txt):
     return set(re.findall(r"^\s*(?:pub(?:\([a-z]+\))?\s+)?([a-z_][a-z0-9_]*)\s*:\s*(?:std::collections::)?Hash(?:Map|Set)\s*<[^;{}\n]*,[ \t]*$", txt, flags=re.M))
 
 
-def local_is_hash(fn_text, name):
-    """`name` is a local or a parameter of hash type in this fn (text from the `fn` line up to the site)."""
+def local_is_hash(fn_text, name, fields=()):
+    """`name` is a local or a parameter of hash type in this fn (text from the `fn` line up to the site): declared with a
+    hash type, built by HashMap/HashSet::new/collect, or taken/cloned out of a hash-typed struct field."""
     n = re.escape(name)
+    if fields:
+        fa = "|".join(re.escape(f) for f in sorted(fields, key=len, reverse=True))
+        if re.search(r"\blet\s+(?:mut\s+)?%s\s*=\s*(?:std::)?mem::(?:take|replace)\(\s*&mut\s+[A-Za-z0-9_.#]*\.(?:%s)\b" % (n, fa), fn_text) or \
+           re.search(r"\blet\s+(?:mut\s+)?%s\s*=\s*[A-Za-z0-9_.#]*\.(?:%s)\.clone\(\)" % (n, fa), fn_text):
+            return True
     pats = [r"\blet\s+(?:mut\s+)?%s\s*:\s*[^=;]*\bHash(?:Map|Set)\b" % n,
             r"\blet\s+(?:mut\s+)?%s\s*(?::[^=;]*)?=\s*[^;]*?\bHash(?:Map|Set)\s*(?:::<[^;]*?>)?::(?:new|with_capacity|default|from)\b" % n,
             r"\blet\s+(?:mut\s+)?%s\s*(?::[^=;]*)?=[^;]*?collect::<\s*Hash(?:Map|Set)\b" % n,
@@ -71,7 +77,7 @@ def scan_sites():
     pats = [
         re.compile(r"(?<![A-Za-z0-9_.\]#])(%s)(%s)\s*\.\s*(?:%s)\s*\(" % (path, ident, meth)),
         re.compile(r"\bfor\b[^;{]*?\bin\s+(?:&\s*(?:mut\s+)?)?(%s)(%s)\s*\{" % (path, ident)),
-        re.compile(r"\.\s*extend\s*\(\s*(?:&\s*)?(%s)(%s)\s*(?:\.\s*(?:iter|into_iter|drain)\s*\(\s*\))?\s*\)" % (path, ident)),
+        re.compile(r"\.\s*extend\s*\(\s*(?:&\s*)?(%s)(%s)\s*(?:\.\s*(?:iter|into_iter|drain|clone)\s*\(\s*\))?\s*\)" % (path, ident)),
     ]
     for crate in CRATES:
         texts, fields = {}, set()
@@ -94,7 +100,7 @@ def scan_sites():
                         if name not in fields or recv in NOT_HASH_RECEIVERS:
                             continue
                     else:
-                        if not local_is_hash("\n".join(lines[k:ln + 1]), name):
+                        if not local_is_hash("\n".join(lines[k:ln + 1]), name, fields):
                             continue
                     text = re.sub(r"\s+", "", lines[ln])[:110]
                     sites.add("%s:%s:%s" % (rel, fn, text))
